@@ -113,6 +113,99 @@ func (f *Frame) invariants(li *loopInfo, st *State, env *loopEnv, positive bool,
 	return
 }
 
+// tryUnroll: a range loop over a slice whose length is a literal (at most 4) is executed iteration by
+// iteration instead of being cut - exact, no invariant needed (typical: a variadic option list that
+// the caller passed zero or one element to).
+func (f *Frame) tryUnroll(li *loopInfo, st *State, r *Term) (*State, bool) {
+	if lc := f.loopContract(li); lc != nil && len(lc.Invariants) > 0 {
+		return nil, false
+	}
+	h := li.header
+	var idx *ssa.Phi
+	for _, in := range h.Instrs {
+		ph, ok := in.(*ssa.Phi)
+		if !ok {
+			break
+		}
+		if ph.Comment == "rangeindex" {
+			idx = ph
+		}
+	}
+	if idx == nil {
+		return nil, false
+	}
+	n := int64(-1)
+	for _, in := range h.Instrs {
+		cmp, ok := in.(*ssa.BinOp)
+		if !ok || cmp.Op != token.LSS {
+			continue
+		}
+		inc, ok := cmp.X.(*ssa.BinOp)
+		if !ok || inc.Op != token.ADD || inc.X != ssa.Value(idx) {
+			continue
+		}
+		var bound *Term
+		if c, isC := cmp.Y.(*ssa.Const); isC {
+			bound, _ = f.constVal(c).(*Term)
+		} else if v, okv := f.vals[cmp.Y]; okv {
+			bound, _ = v.(*Term)
+		}
+		if bound != nil {
+			if bv, isLit := bound.intVal(); isLit {
+				n = bv
+			}
+		}
+	}
+	if n < 0 || n > 4 {
+		return nil, false
+	}
+	phis := map[*ssa.Phi]Val{}
+	for _, in := range h.Instrs {
+		ph, ok := in.(*ssa.Phi)
+		if !ok {
+			break
+		}
+		phis[ph] = f.vals[ph]
+	}
+	cur := st
+	for it := int64(0); it < n; it++ {
+		lr := &loopRun{header: h, phiIn: phis}
+		saved := f.loopRun
+		f.loopRun = lr
+		f.run(cur.clone(), r)
+		f.loopRun = saved
+		for _, ex := range lr.exits {
+			if ex.Op != "false" {
+				return nil, false
+			}
+		}
+		if len(lr.backs) == 0 {
+			return nil, false
+		}
+		var es []edge
+		for _, b := range lr.backs {
+			es = append(es, edge{cond: b.cond, st: b.st})
+		}
+		next := es[0].st
+		if len(es) > 1 {
+			next, _ = f.mergeStates(es)
+		}
+		np := map[*ssa.Phi]Val{}
+		for ph := range phis {
+			var vs []Val
+			for _, b := range lr.backs {
+				vs = append(vs, b.phis[ph])
+			}
+			np[ph] = f.mergeVals(es, vs, "unrolled")
+		}
+		cur, phis = next, np
+	}
+	for ph, v := range phis {
+		f.vals[ph] = v
+	}
+	return cur, true
+}
+
 func (f *Frame) enterLoop(li *loopInfo, st *State, r *Term, edges []edge) *State {
 	h := li.header
 	// ghost visited sets for map ranges driven from this header
